@@ -18,6 +18,10 @@ import (
 // Generators per property.
 var Generators = map[string]func(seed uint64) *Plan{
 	"C01": GenC01,
+	"C02": GenC02x,
+	"C03": GenC03,
+	"C04": GenC04,
+	"C06": GenC06,
 }
 
 // Extras per property (additional oracles).
